@@ -17,7 +17,7 @@ from __future__ import annotations
 
 import itertools
 
-NAMES = ["/a.xml", "/d/b.bin", "/d/e/c.BIN", "/d/x.xml", "/d/e/f/g", "/d/[1]%20p.png", "/de/e/y.xml"]  # "/de/e": a directory path that differs from "/d/e" in its FIRST segment only (same deeper name); "/de": a sibling whose name has "/d" as a string prefix; "%20": a percent-escape is part of the NAME (OPC part names are stored escaped; resolving a target must not unquote it)
+NAMES = ["/a.xml", "/d/b.bin", "/d/e/c.BIN", "/d/x.xml", "/d/e/f/g", "/d/[1]%20p\u00a0e\u0301.png", "/de/e/y.xml"]  # "/de/e": a directory path that differs from "/d/e" in its FIRST segment only (same deeper name); "/de": a sibling whose name has "/d" as a string prefix; "%20": a percent-escape is part of the NAME; U+00A0 and e + U+0301: a no-break space and a decomposed accent are part of the name too (neither whitespace collapsing nor Unicode normalisation nor percent-quoting may touch a target) (OPC part names are stored escaped; resolving a target must not unquote it)
 DEFAULT_NAMES = {1: (0,), 2: (1, 2), 3: (0, 1, 2), 4: (0, 1, 2, 3)}
 
 CT_NS = "http://schemas.openxmlformats.org/package/2006/content-types"
